@@ -1,76 +1,39 @@
-"""spec -> code: replay transitions emitted by TLC (MC_Core) against the real library."""
+"""./check <ID> --replay <file>: re-execute one recorded case against the current /repo and let TLC judge it."""
 from __future__ import annotations
 
 import json
-import sys
-from collections import Counter
 
-from . import core, flavours
-
-
-def probe_dids(fl, maxd):
-    ds = [fl.model_default_did(d) for d in range(1, maxd + 1)]
-    return sorted(set(ds) | {11, 12})
+from . import core, flavours, pipeline as P, trace
+from .findings import load_findings, match_finding
 
 
-def replay_transition(rec, fl, src_state=None, mk=1, maxd=4):
-    """rec = {pre, op, res}.  Returns list of failing clauses (possibly empty), or None if n/a."""
-    op = rec["op"]
-    if not core.op_applicable(op, fl):
-        return None
+def replay_file(prop: str, path: str) -> int:
+    data = json.loads(open(path).read())
+    rec = data["record"]
+    kind = data.get("kind", "core")
+    if kind != "core":
+        from . import checks_query
+        return checks_query.replay(prop, data)
+    flname = rec["fl"]
+    fl = flavours.make(flname.split("+")[0], flname.endswith("+typed"))
+    mk = len(rec["pre"]["meta"][0]) if rec["pre"]["meta"] else 1
     b = core.build(rec["pre"], fl, mk)
-    src = core.build(src_state, fl, mk, name="src") if src_state is not None else None
-    pre_nids = core.node_ids(b)
-    src_before = core.project(src)["st"] if src is not None else None
-    status, r = core.execute(b, op, src)
-    try:
-        post = core.project(b, probe_dids(fl, maxd), pre_nids)
-    except core.Unprojectable as e:
-        post = f"unprojectable:{e}"
-    except Exception as e:  # noqa: BLE001
-        post = f"unprojectable:{type(e).__name__}:{e}"
-    ret = core.ret_id(b, r) if status == "ok" else 0
-    fails = core.compare(op, rec["res"], status, ret, post, rec["pre"])
-    if not isinstance(post, str):
-        exp_iter = core.seq(rec["res"]["st"].get("iter", []))
-        if post["obs"]["iter"] != exp_iter:
-            fails.append(("obs.iter", f"expected {exp_iter}, got {post['obs']['iter']}"))
-    if src is not None:
-        try:
-            src_after = core.project(src)["st"]
-            if src_after != src_before:
-                fails.append(("source", "source tree changed by a copy operation"))
-        except Exception as e:  # noqa: BLE001
-            fails.append(("source", f"source tree unprojectable: {e}"))
-    return fails, status
-
-
-if __name__ == "__main__":
-    path = sys.argv[1]
-    flname = sys.argv[2] if len(sys.argv) > 2 else "str"
-    fl = flavours.make(flname.split("+")[0], "+typed" in flname)
-    cnt = Counter()
-    ex = {}
-    n = 0
-    src_state = json.load(open(sys.argv[3])) if len(sys.argv) > 3 else None
-    for line in open(path):
-        if not line.startswith('"{'):
-            continue
-        rec = json.loads(json.loads(line))
-        if "op" not in rec:
-            continue
-        n += 1
-        out = replay_transition(rec, fl, src_state)
-        if out is None:
-            continue
-        fails, status = out
-        if fails:
-            key = (rec["res"]["why"], fails[0][0], status)
-            cnt[key] += 1
-            ex.setdefault(key, (rec, fails))
-    print(n, "transitions")
-    for k, v in sorted(cnt.items(), key=lambda kv: -kv[1]):
-        print(v, k)
-        rec, fails = ex[k]
-        print("    pre:", {k2: rec["pre"][k2] for k2 in ("top", "kids", "dat", "did")}, "op:", rec["op"])
-        print("    fails:", fails[:3])
+    src = core.build(P.src_state(fl, mk), fl, mk, name="src")
+    new = trace.run_step(b, rec["op"], 1, src, 4, pre_st=rec["pre"])
+    mism, checked, _ = P.validate_records([new], defdid=fl.defdid, mk=mk)
+    mism = [m for m in mism if m["property"] == prop]
+    print("replayed:", json.dumps({k: new.get(k) for k in ("fl", "pre", "op", "status", "post", "bad")})[:2000])
+    findings = load_findings(prop)
+    bad = 0
+    for m in mism:
+        f = match_finding(findings, m, new)
+        if f:
+            print(f"KNOWN-FINDING: property={prop} {f['id']}: {f['description']}")
+        else:
+            bad += 1
+            print(f"  clause={m['clause']} why={m['why']}")
+    if bad:
+        print(f"VIOLATION property={prop} replay={path}")
+        return 1
+    print(f"{prop}: replay agrees with the specification")
+    return 0
